@@ -127,6 +127,19 @@ func generate(prop string, seed uint64, run int, tier string) *Scenario {
 	sc.Seed = seed
 	sc.Run = run
 
+	// swarm knob shared by all generators: the shape of the logger (full, Error-only, NewLogger
+	// with some levels nil), drawn from a generator of its own so that the scenario streams do not shift
+	lr := newRng(seed, uint64(run), 7)
+	mask := pick(lr, 0, 0, 16, 1+lr.IntN(15))
+
+	if sc.FO != nil && sc.FO.Cfg.Logger {
+		sc.FO.Cfg.LogMask = mask
+	}
+
+	if sc.BE != nil && sc.BE.Cfg.Logger {
+		sc.BE.Cfg.LogMask = mask
+	}
+
 	return sc
 }
 
